@@ -51,7 +51,9 @@ class State(object):
 # request must take; the probabilistic gate of that shape is then skipped and the other shapes stay off.
 FORCE = None
 TARGETS = ('joint_claim', 'joint_claim_reshape', 'conflict_tail', 'conflict_tail_reshape', 'drop_in_use',
-           'resize_in_use', 'agg_share', 'agg_share')
+           'resize_in_use', 'agg_share', 'agg_share', 'float_edge', 'float_edge', 'drop_held_by_other', 'move')
+# (total, allocation_ratio) whose double product is just BELOW an integer: total * ratio = c - epsilon; capacity is c - 1
+FLOAT_EDGES = [(100, 1.15), (90, 0.7), (180, 0.35), (50, 2.3), (180, 1.15), (170, 0.7)]
 
 
 def gate(rng, name, p_skip):
@@ -282,8 +284,8 @@ def gen_op(rng, dump, profile='default'):
     kinds = sorted(prof)
     kind = rng.choices(kinds, weights=[prof[k] for k in kinds])[0]
     if FORCE is not None:
-        kind = ('alloc_post' if FORCE in ('joint_claim', 'conflict_tail') else
-                'aggs_set' if FORCE == 'agg_share' else 'reshape')
+        kind = ('alloc_post' if FORCE in ('joint_claim', 'conflict_tail', 'move') else
+                'aggs_set' if FORCE == 'agg_share' else 'float_edge' if FORCE == 'float_edge' else 'reshape')
     if not rps and kind not in ('names', 'rp_create') and rng.random() < 0.7:
         kind = 'rp_create'
 
@@ -296,6 +298,30 @@ def gen_op(rng, dump, profile='default'):
         g = st.gen_of(u)
         return g if rng.random() < p_ok else g + rng.choice([1, -1, 2])
 
+    if kind == 'float_edge':
+        # directed: an inventory whose capacity (total - reserved) * ratio is a hair below an integer c, then a claim of
+        # exactly c (one more than fits): must be refused however the comparison is written
+        import math
+        for u, d in sorted(st.invs.items()):
+            for rc, inv in sorted(d.items()):
+                ratio = inv[7] * 2.0 ** inv[8]
+                cap = (inv[2] - inv[3]) * ratio
+                c = math.ceil(cap)
+                if c != cap and c - cap < 1e-9 * c and inv[6] == 1 and inv[4] <= 1 and inv[5] >= c:
+                    free_c = [k for k in range(1, N_CONS + 1) if k not in st.cons]
+                    if free_c:
+                        need = c - st.used(u, rc)
+                        if need >= 1:
+                            return ('alloc_put', 39, {'uuid': free_c[0], 'allocs': [(u, [(rc, need)])], 'proj': 1, 'user': 1,
+                                                      'gen': None, 'type': 1})
+        if rps:
+            u = rng.choice(rps)
+            total, ratio = rng.choice(FLOAT_EDGES)
+            keep = [{'rc': r, 'total': row[2], 'reserved': row[3], 'min': row[4], 'max': row[5], 'step': row[6],
+                     'ratio': row[7] * 2.0 ** row[8], '_omit': ()} for r, row in sorted(st.invs.get(u, {}).items()) if r != 0]
+            return ('inv_set', 39, u, st.gen_of(u), keep + [{'rc': 0, 'total': total, 'reserved': 0, 'min': 1, 'max': ops.MAX_INT,
+                                                              'step': 1, 'ratio': ratio, '_omit': ()}])
+        return ('rp_create', 39, rng.randint(1, N_RP), rng.randint(1, N_NAME), None)
     if kind == 'names':
         k = rng.random()
         v = pick_v(rng, 0 if rng.random() < 0.1 else 7)
@@ -413,6 +439,19 @@ def gen_op(rng, dump, profile='default'):
                 cs.append(c)
         joint_claim(rng, st, cs)
         conflict_tail(rng, st, cs, v)
+        if FORCE == 'move':
+            # directed: one request empties a holder (right generation) and gives another consumer a valid claim
+            holders = [c for c in st.cons if any(a[0] == c for a in st.allocs)]
+            good = [u for u in st.rps if valid_claim(rng, st, u)]
+            if holders and good:
+                a = rng.choice(holders)
+                b = rng.choice([c for c in range(1, N_CONS + 1) if c != a])
+                u = rng.choice(good)
+                kb = st.cons.get(b)
+                cs[:] = [{'uuid': a, 'allocs': [], 'proj': st.cons[a][1], 'user': st.cons[a][2], 'gen': st.cons[a][4],
+                          'type': (st.cons[a][3] if st.cons[a][3] != -1 else 1) if v >= 38 else None},
+                         {'uuid': b, 'allocs': [(u, valid_claim(rng, st, u))], 'proj': kb[1] if kb else 1, 'user': kb[2] if kb else 1,
+                          'gen': kb[4] if kb else None, 'type': ((kb[3] if kb and kb[3] != -1 else 1) if v >= 38 else None)}]
         return ('alloc_post', v, cs)
     if kind == 'alloc_delete':
         return ('alloc_delete', rng.randint(1, N_CONS))
@@ -440,4 +479,24 @@ def gen_op(rng, dump, profile='default'):
     conflict_tail(rng, st, cs, max(v, 28))
     drop_in_use(rng, st, ri, cs, v)
     resize_in_use(rng, st, ri, cs, v)
+    if FORCE == 'drop_held_by_other':
+        # directed: the new inventory of a provider omits a class that a consumer NOT named by the request holds there
+        held = sorted(set((a[1], a[2]) for a in st.allocs if a[1] in st.rps))
+        if held:
+            u, rcid = rng.choice(held)
+            rc = st_rcname(st, rcid)
+            keep = [{'rc': r, 'total': row[2], 'reserved': row[3], 'min': row[4], 'max': row[5], 'step': row[6],
+                     'ratio': row[7] * 2.0 ** row[8], '_omit': ()} for r, row in sorted(st.invs.get(u, {}).items()) if r != rc]
+            ri[:] = [(u, st.gen_of(u), keep)]
+            others = [c for c in st.cons if not any(a[0] == c and a[1] == u and a[2] == rcid for a in st.allocs)]
+            cs[:] = []
+            if others and rng.random() < 0.5:
+                c = rng.choice(others)
+                k = st.cons[c]
+                rows = {}
+                for b in st.allocs:
+                    if b[0] == c:
+                        rows.setdefault(b[1], []).append((st_rcname(st, b[2]), b[3]))
+                cs[:] = [{'uuid': c, 'allocs': sorted(rows.items()), 'proj': k[1], 'user': k[2], 'gen': k[4],
+                          'type': (k[3] if k[3] != -1 else 1) if v >= 38 else None}]
     return ('reshape', v, ri, cs)
